@@ -45,8 +45,9 @@ PROPS['C09'] = dict(
     text='Proof for every valid broken-down time 1970..2099 (all days, seconds of day, milliseconds): time_to_epoch equals the proleptic-Gregorian '
          'day count * 86400 + seconds of day; the rendered text for each of the six indicators is exactly the fixed-width wire text of the calendar fields, '
          'written inside a 21-byte buffer; parsing the wire text of any valid field tuple hands exactly those fields to time_to_epoch and returns its value '
-         'scaled to ns plus the milliseconds; time-only and date-only/MonthYear texts likewise. The thorough tier adds the pure calendar inverse lemma and the '
-         'direct round trip. The GetTimeAsStringMS conjunct (iostream rendering of log timestamps) is NOT decided by this check.',
+         'scaled to ns plus the milliseconds; time-only and date-only/MonthYear texts likewise. The pure calendar lemma that composes format and parse into the round trip (the two spec directions are inverse '
+         'on [1970,2100)) and the direct round trip on the compiled codecs are NOT proved (CBMC did not finish within 30 min): both tiers evaluate them '
+         'natively, exhaustively over all 47482 days, labelled native and never counted as proved. The GetTimeAsStringMS conjunct (iostream rendering of log timestamps) is NOT decided by this check.',
     note='Tickval::get_tm (chrono to_time_t + gmtime_r) and Tickval::msecs are ASSUMED to return the spec calendar fields (model bodies in specs/k_date.py); '
          'utcdiff = 0; loops bounded by field width <= 4 are unwound with unwinding assertions (complete); GetTimeAsStringMS not covered',
     trusted_base=COMMON_TRUST,
